@@ -1562,6 +1562,30 @@ func (e *Exec) builtin(fr *frame, name string, c *ssa.CallCommon, args []Value) 
 // the whole source (dst at least as long).
 func (e *Exec) copyBuiltin(dstV, srcV Value) Value {
 	dst := dstV.(*SliceV)
+	// slices of structs / pointers / strings ...: element-wise, concrete bounds only
+	if s, ok := srcV.(*SliceV); ok && dst.obj != nil && s.obj != nil {
+		if da, isArr := e.load0(&PtrV{obj: dst.obj, path: dst.path}).(*ArrayV); isArr {
+			sa, ok := e.load0(&PtrV{obj: s.obj, path: s.path}).(*ArrayV)
+			if !ok {
+				e.unsupported("copy between slices of different representation")
+			}
+			if dst.len.op != OpConst || dst.off.op != OpConst || s.len.op != OpConst || s.off.op != OpConst {
+				e.unsupported("copy of non-integer elements with symbolic bounds")
+			}
+			n := int(dst.len.val)
+			if int(s.len.val) < n {
+				n = int(s.len.val)
+			}
+			vals := make([]Value, n) // all sources first: memmove semantics
+			for i := 0; i < n; i++ {
+				vals[i] = copyVal(sa.e[int(s.off.val)+i])
+			}
+			for i := 0; i < n; i++ {
+				da.e[int(dst.off.val)+i] = vals[i]
+			}
+			return e.c64(int64(n))
+		}
+	}
 	var sarr, soff, slen *Term
 	switch s := srcV.(type) {
 	case *SliceV:
